@@ -252,21 +252,24 @@ def _one_hot_batch_rule(
     (x,) = batched_args
     (bd,) = batch_dims
 
-    out = OneHotPlugin._PRIM.bind(
-        x,
-        num_classes=num_classes,
-        dtype=dtype,
-        axis=axis,
-    )
     if bd is None:
+        out = OneHotPlugin._PRIM.bind(
+            x, num_classes=num_classes, dtype=dtype, axis=axis
+        )
         return out, None
 
-    out_rank = x.ndim + 1
+    # ``axis`` is a position in the output of the UNBATCHED call: canonicalise it
+    # against the per-example output rank, move the batch axis to the front and
+    # insert the class axis one position further right.
+    x = jnp.moveaxis(x, bd, 0)
+    out_rank = x.ndim  # per-example output rank = (x.ndim - 1) + 1
     axis_int = int(axis)
     if axis_int < 0:
         axis_int += out_rank
-    out_bd = bd + 1 if axis_int <= bd else bd
-    return out, out_bd
+    out = OneHotPlugin._PRIM.bind(
+        x, num_classes=num_classes, dtype=dtype, axis=axis_int + 1
+    )
+    return out, 0
 
 
 batching.primitive_batchers[OneHotPlugin._PRIM] = _one_hot_batch_rule
